@@ -249,7 +249,7 @@ theorem markText_same_names (ns : List Bytes) (f g : Bytes → Option Bytes)
 
 /-- the (lower-cased name, looked-up value) pairs `assembleVaryKey` renders -/
 def pairsOf (h : Hdrs) (names : List Bytes) : List (Bytes × Option Bytes) :=
-  names.map fun n => (lower n, getByName h (lower n))
+  names.map fun n => (lower n, combinedByName h (lower n))
 
 theorem lower_ne_nil {n : Bytes} (h : n ≠ []) : lower n ≠ [] := by
   cases n with
@@ -293,7 +293,7 @@ theorem assembleFrom_nostar_nil (h : Hdrs) (names : List Bytes)
     simp only [assembleFrom, hn, Bool.false_eq_true, ↓reduceIte]
     rw [appendName_eq]
     simp only [List.isEmpty_nil, ↓reduceIte, List.nil_append]
-    have hp : pairText (lower n, getByName h (lower n)) ≠ [] :=
+    have hp : pairText (lower n, combinedByName h (lower n)) ≠ [] :=
       pairText_ne_nil _ (lower_ne_nil (hne n (by simp)))
     rw [assembleFrom_nostar h names _ (fun hc => hs (by simp [hc])) (fun m hm => hne m (by simp [hm])) hp]
     simp [pairsOf, markText]
@@ -340,6 +340,9 @@ theorem clean_lower {n : Bytes} (h : Clean n) : Clean (lower n) := by
 theorem getByName_lower (h : Hdrs) (n : Bytes) : getByName h (lower n) = getByName h n := by
   simp [getByName, valuesOf, lower_idem]
 
+theorem combinedByName_lower (h : Hdrs) (n : Bytes) : combinedByName h (lower n) = combinedByName h n := by
+  simp [combinedByName, valuesOf, lower_idem]
+
 
 /-! ### items are never empty; the members of a Vary field -/
 
@@ -373,8 +376,8 @@ theorem makeMark_nostar {lines : List Bytes} {h : Hdrs} (hs : star ∉ varyMembe
   rw [makeMark_eq]; exact assembleFrom_nostar_nil h _ hs (varyMembers_ne_nil lines)
 
 theorem pairsOf_eq {h1 h2 : Hdrs} : ∀ (ns1 ns2 : List Bytes), pairsOf h1 ns1 = pairsOf h2 ns2 →
-    ns1.map lower = ns2.map lower ∧ (∀ n ∈ ns1, getByName h1 n = getByName h2 n) ∧
-      (∀ n ∈ ns2, getByName h1 n = getByName h2 n) := by
+    ns1.map lower = ns2.map lower ∧ (∀ n ∈ ns1, combinedByName h1 n = combinedByName h2 n) ∧
+      (∀ n ∈ ns2, combinedByName h1 n = combinedByName h2 n) := by
   intro ns1
   induction ns1 with
   | nil =>
@@ -394,12 +397,12 @@ theorem pairsOf_eq {h1 h2 : Hdrs} : ∀ (ns1 ns2 : List Bytes), pairsOf h1 ns1 =
       · intro n hm
         rcases List.mem_cons.mp hm with hm | hm
         · subst hm
-          rw [← getByName_lower h1 n, ← getByName_lower h2 n, hv, hn]
+          rw [← combinedByName_lower h1 n, ← combinedByName_lower h2 n, hv, hn]
         · exact this.2.1 n hm
       · intro n hm
         rcases List.mem_cons.mp hm with hm | hm
         · subst hm
-          rw [← getByName_lower h1 n, ← getByName_lower h2 n, ← hn, hv, hn]
+          rw [← combinedByName_lower h1 n, ← combinedByName_lower h2 n, ← hn, hv, hn]
         · exact this.2.2 n hm
 
 /-! ### closed form of the field-line joiner -/
